@@ -2,8 +2,8 @@
    Proved at the layers that compute device offsets; the per-operation footprint on the implementation is
    classified by the extracted Spec/Regions.v (tools/props/c11.py). *)
 From Coq Require Import NArith List.
-From FatVerif Require Import Model.Base Model.Table Model.Fat Model.Offsets Spec.Image
-  Proofs.ImageProofs Proofs.FatProofs Proofs.OffsetsProofs Proofs.CrossProofs.
+From FatVerif Require Import Model.Base Model.Table Model.Fat Model.Offsets Spec.Image Spec.Abs Spec.Regions
+  Proofs.ImageProofs Proofs.FatProofs Proofs.OffsetsProofs Proofs.CrossProofs Proofs.RegionsProofs.
 Open Scope N_scope.
 
 Theorem C11_write_frame : forall bs im off o,
@@ -34,7 +34,54 @@ Theorem C11_cluster_inside_volume : forall g c, ogeom_ok g -> 2 <= c < o_cluster
     off + cluster_size g <= 4294967295 * 4096.
 Proof. exact offset_arith_exact. Qed.
 
+(* ---- the classifier that names the structure of every device write of the implementation (Spec/Regions.v, extracted,
+   tools/props/c11.py) is sound and complete for the layout, for every geometry with non-zero sector and cluster sizes
+   whose data area starts inside the declared volume (every mounted volume: C07_mount_ok_coherent) *)
+(* a byte is classified "cluster c" exactly when it lies in the byte range of data cluster c *)
+Theorem C11_classify_cluster_complete : forall g im m c i, geom_sane g -> 2 <= c < g_clusters g + 2 -> i < g_cluster_size g ->
+  classify g im m (g_cluster_off g c + i) = RCluster c (cluster_owner g im m c).
+Proof. exact classify_cluster_bytes. Qed.
+Theorem C11_classify_cluster_sound : forall g im m off c o, geom_sane g -> classify g im m off = RCluster c o ->
+  2 <= c < g_clusters g + 2 /\ g_cluster_off g c <= off < g_cluster_off g c + g_cluster_size g /\
+  off < g_volume_bytes g /\ o = cluster_owner g im m c.
+Proof. exact classify_cluster_inv. Qed.
+(* and that is the offset at which the library addresses cluster c (u32 sector arithmetic of fs.rs, no wrap) *)
+Theorem C11_library_cluster_offset_classified : forall g im m c i,
+  ogeom_ok (ogeom_of g) -> g_first_data g <= g_total_sectors g -> 2 <= c < g_clusters g + 2 -> i < g_cluster_size g ->
+  exists off, offset_from_cluster (ogeom_of g) c = Ok off /\
+    classify g im m (off + i) = RCluster c (cluster_owner g im m c).
+Proof. exact library_cluster_offset_classified. Qed.
+(* FAT copy k, the fixed root, the outside *)
+Theorem C11_classify_fat_complete : forall g im m k j, geom_sane g -> k < g_fats g -> j < g_fat_bytes g ->
+  classify g im m (g_fat_off g k + j) = RFat k.
+Proof. exact classify_fat_bytes. Qed.
+Theorem C11_classify_fat_sound : forall g im m off k, geom_sane g -> classify g im m off = RFat k ->
+  0 < g_fat_bytes g -> k < g_fats g /\ g_fat_off g k <= off < g_fat_off g k + g_fat_bytes g.
+Proof. exact classify_fat_inv. Qed.
+Theorem C11_classify_root_complete : forall g im m j, geom_sane g -> j < g_root_sectors g * g_bps g ->
+  classify g im m (g_root_off g + j) = RRoot.
+Proof. exact classify_root_bytes. Qed.
+Theorem C11_classify_outside_iff : forall g im m off, g_volume_bytes g <= off <-> classify g im m off = ROutside.
+Proof. exact classify_outside. Qed.
+
+(* non-vacuity: the smallest test volume (64 sectors of 512 bytes, 1 reserved, 2 FATs of 1 sector, 16 root entries) *)
+Example C11_geom_example :
+  let g := {| g_bps := 512; g_spc := 1; g_reserved := 1; g_fats := 2; g_root_entries := 16; g_total_sectors := 64;
+              g_spf := 1; g_ext_flags := 0; g_root_cluster := 0; g_fsinfo_sector := 0; g_backup_sector := 0; g_media := 248 |} in
+  geom_sane g /\ g_clusters g = 60 /\ ogeom_ok (ogeom_of g) /\
+  classify g (img_empty 0) (FMapPositive.PositiveMap.empty owner) (g_cluster_off g 61 + 511) = RCluster 61 OFree /\
+  classify g (img_empty 0) (FMapPositive.PositiveMap.empty owner) (512 + 512 + 5) = RFat 1 /\
+  classify g (img_empty 0) (FMapPositive.PositiveMap.empty owner) (64 * 512) = ROutside.
+Proof. vm_compute. repeat split; try discriminate; try reflexivity; intros C; discriminate C. Qed.
+
 Print Assumptions C11_write_frame.
 Print Assumptions C11_table_update_inside_fat_copies.
 Print Assumptions C11_single_copy_update_confined.
 Print Assumptions C11_cluster_inside_volume.
+Print Assumptions C11_classify_cluster_complete.
+Print Assumptions C11_classify_cluster_sound.
+Print Assumptions C11_library_cluster_offset_classified.
+Print Assumptions C11_classify_fat_complete.
+Print Assumptions C11_classify_fat_sound.
+Print Assumptions C11_classify_root_complete.
+Print Assumptions C11_classify_outside_iff.
